@@ -78,8 +78,18 @@ PROPS = {
     "C12": std("c12", 10000, 100000, procs=True, fuzz=30),
     "C14": std("c14", 5000, 150000, procs=True, fuzz=45),
     "C13": std("c13", 5000, 100000, procs=True, fuzz=45),
-    "C11": std("c11", 20000, 500000, procs=True, fuzz=45),
-    "C04": std("c04", 6000, 55000, procs=True, fuzz=45, grid_shards_thorough=16),
+    "C11": std("c11", 20000, 500000, procs=True, fuzz=45, extra=dict(
+        # PathOf / PathsOf build path words: the grid and a shorter random search again with -tags debug (bmtree's contracts)
+        variants=[dict(name="rel"),
+                  dict(name="debug", tags="debug", skip_last=True,
+                       quick=dict(prop=5000, prop_shards=1, grid_shards=1, timeout=300),
+                       thorough=dict(prop=50000, prop_shards=4, grid_shards=1, timeout=3600))])),
+    "C04": std("c04", 6000, 55000, procs=True, fuzz=45, grid_shards_thorough=16, extra=dict(
+        # AllPaths / Decode carry debug-only contracts: the thorough tier repeats grid + random search with -tags debug
+        # (17 s in the quick configuration: too slow for the quick tier)
+        variants=[dict(name="rel"),
+                  dict(name="debug", tags="debug", tiers=["thorough"], skip_last=True,
+                       thorough=dict(prop=10000, prop_shards=4, grid_shards=1, timeout=3600))])),
     "C10": std("c10", 20000, 2000000, fuzz=30, extra=dict(
         engine="rapid+grid+gofuzz (release build; the quick grid and a shorter random search again with -tags debug)",
         # the path-word functions carry no contract today; a contract added to them (bmtree's must.Be checks are active with
